@@ -18,6 +18,8 @@ RULES = [
     Rule('C15.R1', 'every write of the WOPN/OPNI savers stays inside the destination: covered by a length check on every path', 14),
     Rule('C15.R2', 'bytes written <= size calculator and == bytes consumed by the loader, as polynomials in the bank counts', 8),
     Rule('C15.R3', 'reader/writer layout tables, codec pairs, flag bits and string terminators agree', 40),
+    Rule('C15.R5', 'a version number read from the file is accepted only inside [2, latest]: versions below 2 have the older layout and no version field', 2),
+    Rule('C15.R6', 'WOPN_parseInstrument assigns every field of the instrument on every path: the loaded value is a function of the file alone', 8),
     Rule('C15.R4', 'the placeholder bank created for a zero bank count is the one that is marked blank', 2),
 ]
 EXPLANATION = ('Byte-budget abstract interpretation (engine E1) of the structured bodies of WOPN_SaveBankToMem, WOPN_SaveInstToMem and '
@@ -381,6 +383,8 @@ def analyse(facts, tier):
     # header flag byte and bank meta: masks/shifts and relative offsets agree between loader and saver
     obls += header_agreement(facts)
     obls += r4_init(facts)
+    obls += r5_version_window(facts)
+    obls += r6_parser_total(facts)
     return obls
 
 
@@ -486,4 +490,84 @@ def r4_init(facts):
         out.append(Obl('C15.R4', fn.name, 'placeholder %s marked blank under %s == 0' % (arr, short(gp['n']) if gp else '?'), loc, 'discharged' if ok else 'finding',
                        why='%s is allocated from %s, which is derived from %s' % (arr, array_of.get(arr), short(gp['n'])) if ok else
                        'the instruments marked blank under `%s == 0` belong to %s, which is not the array allocated for that count: the real placeholder bank stays unmarked and does not survive save + load' % (short(gp['n']) if gp else '?', arr)))
+    return out
+
+
+def r5_version_window(facts):
+    """both loaders read a 16-bit version behind the second magic number.  The writers emit that magic (and the field) only for
+    versions >= 2; with a smaller value the loader would parse the version-1 layout but keep the value, and saving the loaded value
+    with its own version (0 means "latest") followed by loading does not return it.  So the value read must be compared against both
+    ends of [2, latest] before the loader goes on (facts that hold at the first statement after the read)."""
+    out = []
+    n = 0
+    for name in ('WOPN_LoadBankFromMem', 'WOPN_LoadInstFromMem'):
+        fn = facts.fn(name)
+        rd = None
+        for b, j, st in fn.cfg.stmts():
+            ap = assign_parts(st['s'])
+            if ap and strip(ap[0]).get('k') == 'DeclRefExpr' and any(short(callee_name(y)) == 'toUint16LE' for y in walk(ap[1]) if 'callee' in y):
+                rd = (b, j, st, strip(ap[0]))
+                break
+        if rd is None:
+            raise build.AnalysisBroken('C15.R5: version read not found in %s' % name)
+        b0, j0, st0, var = rd
+        # first cursor move that the read dominates
+        nxt = None
+        for b, j, st in fn.cfg.stmts():
+            if st['s'].get('k') == 'CompoundAssignOperator' and ((b == b0 and j > j0) or (b != b0 and fn.cfg.block_dominates(b0, b))):
+                nxt = (b, j, st)
+                break
+        if nxt is None:
+            raise build.AnalysisBroken('C15.R5: no statement after the version read in %s' % name)
+        n += 1
+        lo = hi = False
+        for f in guard_facts(fn, nxt[0], nxt[2]):
+            nn = cmp_norm(f) if f[0] == 'cmp' else None
+            if f[0] == 'cmp' and strip(f[2]).get('id') == var.get('id'):
+                c = const_of(f[3])
+                if f[1] in ('>=',) and c is not None and c >= 2 or f[1] == '>' and c is not None and c >= 1:
+                    lo = True
+                if f[1] in ('<=', '<') and (c is None or c <= 2 + (1 if f[1] == '<' else 0)):
+                    hi = True
+        ok = lo and hi
+        out.append(Obl('C15.R5', name, 'version window', st0['loc'], 'discharged' if ok else 'finding',
+                       why='2 <= version <= latest holds after the read' if ok else
+                       'the version read from the file is %s: a value of 0 or 1 behind the version-2 magic is loaded with the version-1 layout, and save-then-load of the loaded value is not the identity' % ('not bounded from below' if not lo else 'not bounded from above')))
+    return out
+
+
+def r6_parser_total(facts):
+    """the single-instrument loader parses into a struct provided by the caller (the bank loader into calloc'ed memory): a field that
+    the parser assigns only under a condition keeps whatever the caller's struct held, so the loaded value is not determined by the
+    file and save-then-load is no identity.  Every field of WOPNInstrument has an unconditional store (loops with constant bounds
+    aside) in WOPN_parseInstrument."""
+    out = []
+    fn = facts.fn('WOPN_parseInstrument')
+    rec = facts.records.get('WOPNInstrument')
+    if not rec:
+        raise build.AnalysisBroken('C15.R6: record WOPNInstrument not found')
+    uncond = set()
+    for b, j, st in fn.cfg.stmts():
+        tg = []
+        for x in walk(st['s']):
+            ap = assign_parts(x)
+            if ap:
+                tg.append(ap[0])
+            if 'callee' in x and short(callee_name(x)) in ('strncpy', 'memcpy', 'memset') and x.get('a'):
+                tg.append(x['a'][0])
+        if not tg:
+            continue
+        if guard_facts(fn, b, st, loops=False):
+            continue
+        for t in tg:
+            for y in walk(t):
+                if y.get('k') == 'MemberExpr' and 'WOPNInstrument::' in (y.get('n') or ''):
+                    uncond.add(short(y['n']))
+    for fld in rec['fields']:
+        ok = fld['n'] in uncond
+        out.append(Obl('C15.R6', fn.name, 'field ' + fld['n'], fn.loc, 'discharged' if ok else 'finding',
+                       why='assigned unconditionally' if ok else
+                       'WOPNInstrument::%s is assigned only under a condition (or not at all): WOPN_LoadInstFromMem leaves in it what the caller\'s struct held before, so the loaded instrument is not determined by the file' % fld['n']))
+    if len(out) < 8:
+        raise build.AnalysisBroken('C15.R6: fields of WOPNInstrument not found')
     return out
